@@ -104,6 +104,8 @@ def subspaces(tier):
     fl = 2 if tier == 'quick' else 3
     mf = [{'k': 'f', 'files': list(s), 'werr': we, 'o': om} for ln in range(1, fl + 1) for s in itertools.product(fk, repeat=ln) for we in (0, 1)
           for om in ('none', 'first', 'all') if not (om == 'first' and ln == 1)]
+    # the same sequences with the diagnostics collected in one -E file: it holds the messages of every source of the run
+    mf += [{'k': 'f', 'files': list(s), 'werr': we, 'o': 'none', 'elog': 1} for ln in range(1, fl + 1) for s in itertools.product(fk, repeat=ln) for we in (0, 1)]
     subs.append(('c:file-sequences<=%d' % fl, mf))
     subs.append(('d:branch-distance-programs', list(jprogs(tier))))
     subs.append(('e:expected-diagnostics', list(xprogs(tier))))
@@ -370,6 +372,8 @@ def ev_files(case):
     for x in outn:
         opt += ['-o', x]
     outn += ['f%d.p' % i for i in range(nout, len(names))]
+    if case.get('elog'):
+        opt += ['-E', 'err.log']
     o = core.run('asl', opt + ['-q'] + names)
     ck = core.crashkind(o)
     d = 'asl %s %s' % (' '.join(opt), ' '.join(case['files']))
@@ -402,6 +406,12 @@ def ev_files(case):
                 return core.R(False, 'codefile', 'files/codefile-unreadable', '%s: %r on %s' % (outn[i], e, d))
             if not recs or recs[-1].data[-1] != 0xe0 + i:
                 return core.R(False, 'codefile', 'files/codefile-content', '%s does not end in the last byte of source %d on %s' % (outn[i], i, d))
+    if case.get('elog'):
+        log = (core.get('err.log') or b'').decode('latin-1')
+        for i, k in enumerate(case['files'][:len(exp)]):
+            if k in ('warn', 'fail', 'jfail', 'fatal') and ('f%d.asm' % i) not in log:
+                return core.R(False, 'errlog', 'files/error-log-lost-a-file', 'err.log does not mention f%d.asm (%s) on %s' % (i, k, d))
+        outn = outn + ['err.log']
     import os
     stray = sorted(x for x in os.listdir(core.workdir()) if not x.endswith('.asm') and x not in outn and not x.startswith('.'))
     if stray:
